@@ -1,8 +1,11 @@
 import astload
 import eigencw
 import hooks as nvhooks
-import rss_smt
-import cluster_spec
+import os
+import sys
+sys.path.insert(0, os.path.dirname(os.path.abspath(__file__)))      # other specs (C11) load this module by path: its siblings must be importable
+import rss_smt          # noqa: E402
+import cluster_spec     # noqa: E402
 from core import Fn, Target, VC
 
 DRV = 'drivers/inst_wlearner.cpp'
